@@ -129,14 +129,24 @@ def check(out: Outcome, p: dict, xs: list, runners: list, label: str = "") -> No
             if not due:
                 out.violation(f"ADWIN: window cut from {before + 1} to {w} values at step {t} although no check is due", rep)
                 break
-            pre._insert_bucket(value=x)
-            if not exceeds_any_boundary_split(pre):
+            try:        # uses two private helpers of the detector; if a refactor removes them this clause is skipped, not failed
+                pre._insert_bucket(value=x)
+                justified = exceeds_any_boundary_split(pre)
+            except AttributeError:
+                justified = True
+                out.count("shrink_justification_skipped_private_api_missing")
+            if not justified:
                 out.violation(f"ADWIN: window shrank at step {t} although no split along bucket boundaries exceeds eps_cut", rep)
                 break
         if bool(d.drift) != dropped:
             out.violation(f"ADWIN: drift={bool(d.drift)} but data {'was' if dropped else 'was not'} dropped at step {t}", rep)
             break
-        if due and examined_exceeds(d):
+        try:
+            still = due and examined_exceeds(d)
+        except AttributeError:
+            still = False
+            out.count("post_check_clause_skipped_private_api_missing")
+        if still:
             out.violation(f"ADWIN: after the check at step {t} an examined split still exceeds eps_cut", rep)
             break
     runners.append(r)
